@@ -60,7 +60,6 @@ Types == {"plain", "maint", "disk", "nostart", "ghost", "injected"}
 Capable(t) == t \in {"maint", "disk"}
 Kinds == {"maintain", "thorough", "records"}
 
-Range(s) == {s[i] : i \in 1..Len(s)}
 
 \* ---------------------------------------------------------------- shapes
 D(n, t, d, s, ll) == [n |-> n, t |-> t, d |-> d, s |-> s, ll |-> ll]
